@@ -60,12 +60,37 @@ class Ctx:
              "witness": witness or {}, "case": self.case}
         )
 
+    # ---- process-wide configuration sanitizer (every library call made through lib / must_raise) ----
+    @staticmethod
+    def _global_config():
+        import numpy as _np
+        import torch as _torch
+
+        return (str(_torch.get_default_dtype()), _torch.is_grad_enabled(), _torch.are_deterministic_algorithms_enabled(),
+                tuple(sorted(_np.geterr().items())))
+
+    def _config_check(self, what, before):
+        after = self._global_config()
+        self.counters["global_config_checks"] += 1
+        if after != before:
+            import torch as _torch
+
+            names = ("torch default dtype", "grad mode", "deterministic algorithms", "numpy errstate")
+            changed = {n: (b, a) for n, b, a in zip(names, before, after) if a != b}
+            _torch.set_default_dtype(_torch.float64 if "float64" in before[0] else _torch.float32)
+            _torch.set_grad_enabled(before[1])
+            self.violation("global-config-leak", f"{what} left process-wide configuration changed: {changed} (later results in this "
+                           "process - random draws, dtypes - depend on whether this call was made)", tags={"call": what, "config": ",".join(changed)})
+
     # ---- library call discipline ----
     def lib(self, what, fn, *a, tags=None, exc_tagger=None, **k):
         """Call a library function on a VALID input: any exception is a
         violation of the property whose call it was."""
+        cfg = self._global_config()
         try:
-            return fn(*a, **k)
+            r = fn(*a, **k)
+            self._config_check(what, cfg)
+            return r
         except LibraryError:
             raise
         except Exception as e:  # noqa: BLE001
@@ -82,10 +107,12 @@ class Ctx:
 
     def must_raise(self, what, exc_types, fn, *a, tags=None, **k):
         """Call a library function on a MUST-REJECT input."""
+        cfg = self._global_config()
         try:
             r = fn(*a, **k)
         except exc_types:
             self.count("rejections_observed")
+            self._config_check(what + " (refused)", cfg)
             return True
         except Exception as e:  # noqa: BLE001
             self.violation(
